@@ -16,6 +16,7 @@ import (
 	"testing"
 
 	"github.com/nspcc-dev/neo-go/pkg/core/transaction"
+	nkeys "github.com/nspcc-dev/neo-go/pkg/crypto/keys"
 	"github.com/nspcc-dev/neo-go/pkg/vm/vmstate"
 	"pgregory.net/rapid"
 )
@@ -42,6 +43,11 @@ type upgTarget struct {
 	Sig    int // 0 committee, 1 Alphabet account (fault where it differs), 2 single member, 3 stranger, 4 committee scope None, 5 nobody
 	GasCut int
 	Twice  bool
+	// main-chain contracts (NeoFS, Processing) are gated by the majority of the
+	// keys holding the NeoFSAlphabet role: 0 as it is; 1..3 the role is given to
+	// another key set in the block right before the first attempt (one key
+	// replaced / one added / a single fresh key) and given back afterwards
+	Redes int
 }
 
 func genUpgTarget(t *rapid.T) upgTarget {
@@ -53,6 +59,7 @@ func genUpgTarget(t *rapid.T) upgTarget {
 		u.GasCut = rapid.IntRange(5, 95).Draw(t, "gascut")
 	}
 	u.Twice = Chance(t, "twice?", 25)
+	u.Redes = Weighted(t, "redesignate", []int{55, 15, 15, 15})
 	return u
 }
 
@@ -116,6 +123,20 @@ func upgradeBody(r *Run) {
 				signers = []Signer{Single("stranger", stranger)}
 			case 4:
 				signers = []Signer{w.Committee.WithScope(transaction.None)}
+			}
+			var giveBack []any
+			if (d.Repo == "neofs" || d.Repo == "processing") && tg.Redes > 0 {
+				if newMaj, back, ok := redesignate(r, w, tg.Redes); ok {
+					giveBack = back
+					// the role changes hands with the next block: the attempts below
+					// start in exactly that block
+					switch tg.Sig {
+					case 0:
+						signers, okSig = []Signer{newMaj}, true
+					case 1:
+						signers, okSig = []Signer{w.Committee}, w.Committee.Hash == newMaj.Hash
+					}
+				}
 			}
 			if !okSig {
 				r.Inject("upgrade.signer")
@@ -233,6 +254,9 @@ func upgradeBody(r *Run) {
 					return
 				}
 			}
+			if giveBack != nil {
+				restoreRole(r, w, giveBack)
+			}
 		}
 	}
 	defer func() { BlockHook = nil }()
@@ -259,6 +283,53 @@ func upgradeBody(r *Run) {
 		r.Count("runs_where_history_ended_before_upgrade_point")
 	}
 	r.foreign = ""
+}
+
+// redesignate gives the NeoFSAlphabet role to another key set (committee
+// decision, one block) and returns the majority account of the new holders and
+// what to designate to undo it.
+func redesignate(r *Run, w *World, variant int) (Signer, []any, bool) {
+	it, err := w.readNoHook(w.Roles, "getDesignatedByRole", int64(16), int64(w.Height()+1))
+	if err != nil || len(ItemArr(it)) == 0 {
+		return Signer{}, nil, false
+	}
+	var back []any
+	for _, k := range ItemArr(it) {
+		back = append(back, ItemBytes(k))
+	}
+	var nk []*nkeys.PrivateKey
+	switch variant {
+	case 1:
+		nk = append(append(nk, w.Privs[:len(w.Privs)-1]...), DetKey("upgrade/alpha/x"))
+	case 2:
+		nk = append(append(nk, w.Privs...), DetKey("upgrade/alpha/x"))
+	default:
+		nk = []*nkeys.PrivateKey{DetKey("upgrade/alpha/y")}
+	}
+	var pubs []any
+	for _, k := range nk {
+		pubs = append(pubs, k.PublicKey().Bytes())
+	}
+	aer := w.AddBlock([]*transaction.Transaction{w.CallTx([]Signer{w.Committee}, -1, w.Roles, "designateAsRole", int64(16), pubs)}, 1)[0]
+	r.AddBlock(1, 1)
+	if aer.VMState != vmstate.Halt {
+		harnessf("re-designation of NeoFSAlphabet: %s", aer.FaultException)
+	}
+	r.Inject("upgrade.role_changed")
+	r.Fired("upgrade.role_changed")
+	r.Tracef("h=%d NeoFSAlphabet role given to %d keys (variant %d)", w.Height(), len(nk), variant)
+	return Multi(fmt.Sprintf("new-alphabet-%d-of-%d", len(nk)/2+1, len(nk)), len(nk)/2+1, nk), back, true
+}
+
+// restoreRole gives the role back and lets the designation take effect.
+func restoreRole(r *Run, w *World, back []any) {
+	aer := w.AddBlock([]*transaction.Transaction{w.CallTx([]Signer{w.Committee}, -1, w.Roles, "designateAsRole", int64(16), back)}, 1)[0]
+	r.AddBlock(1, 1)
+	if aer.VMState != vmstate.Halt {
+		harnessf("giving the NeoFSAlphabet role back: %s", aer.FaultException)
+	}
+	w.AddBlock(nil, 1)
+	r.AddBlock(0, 1)
 }
 
 func versionOf(w *World, d *Deployed) int64 {
